@@ -106,6 +106,10 @@ class C20Executor(Executor):
 
     # ---- construction / conversion
     def b_collection(self, st, name, args, node):
+        if name == "bytearray" and (not args or (isinstance(args[0], VBytes) and not args[0].items)):
+            # an empty buffer that the function grows (`out += block`, `out.extend(block)`): symbolic array of length 0
+            ref = st.alloc(HeapObj("symarr", (z3.IntVal(0), z3.K(I, z3.BitVecVal(0, 8)))), self.refs)
+            return [(st, VRef(ref))]
         if name == "bytearray" and args and isinstance(args[0], VInt) and args[0].const() is None:
             n = ops.int_term(args[0])
             st2 = self.fork_raise(st, n < 0, "ValueError")
@@ -198,7 +202,7 @@ class C20Executor(Executor):
                 return i
         return 0
 
-    def get_index(self, st, base, idx, node):
+    def _get_index_sym(self, st, base, idx, node):
         if isinstance(base, VRef) and st.obj(base.ref).kind == "symarr" and isinstance(idx, VInt):
             n, a = st.obj(base.ref).data
             it = ops.int_term(idx)
@@ -210,7 +214,12 @@ class C20Executor(Executor):
 
     # ---- havoc of symbolic arrays in loops
     def havoc_loop_state(self, st, body, spec, extra_names=()):
-        sym = {r: st.heap[r] for r in self.mutated_refs(body, st) if st.heap.get(r) is not None and st.heap[r].kind == "symarr"}
+        import ast as _ast
+        refs = set(self.mutated_refs(body, st))
+        for n_ in [x for b_ in body for x in _ast.walk(b_)]:
+            if isinstance(n_, _ast.AugAssign) and isinstance(n_.target, _ast.Name) and isinstance(st.lookup(n_.target.id), VRef):
+                refs.add(st.lookup(n_.target.id).ref)
+        sym = {r: st.heap[r] for r in refs if st.heap.get(r) is not None and st.heap[r].kind == "symarr"}
         carried = []
         if spec is not None and getattr(spec, "rebind", None) == "carried-16-byte-blocks":
             # a bytes-like local bound before the loop and re-assigned in it (the CBC chaining block): after the havoc it is an
@@ -221,7 +230,10 @@ class C20Executor(Executor):
                     carried.append(name)
         super().havoc_loop_state(st, body, spec, extra_names)
         for r, o in sym.items():
-            st.heap[r] = HeapObj("symarr", (o.data[0], z3.Array(fresh_name("out"), I, BV8)))
+            # content AND length are arbitrary after the havoc (a buffer may grow); the loop invariant says what the length is
+            ln = z3.Int(fresh_name("out_len"))
+            st.assume(ln >= 0)
+            st.heap[r] = HeapObj("symarr", (ln, z3.Array(fresh_name("out"), I, BV8)))
         for name in carried:
             st.bind(name, VBytes([VInt(z3.BitVec(fresh_name(f"{name}_{t}"), 8)) for t in range(16)]))
         if spec is not None and isinstance(getattr(spec, "rebind", None), dict):
@@ -229,7 +241,33 @@ class C20Executor(Executor):
                 st.bind(name, fn(self, st))
 
     # ---- sequences of symbolic length: concatenation, repetition, comparison, slicing keeps the array view
+    def _grow(self, st, ref, items):
+        n, a = st.obj(ref).data
+        for t, x in enumerate(items):
+            a = z3.Store(a, n + t, byte_t(x))
+        st.heap[ref] = HeapObj("symarr", (z3.simplify(n + len(items)), a))
+
+    def call_method(self, st, obj, name, args, kwargs, node):
+        if isinstance(obj, VRef) and st.heap.get(obj.ref) is not None and st.obj(obj.ref).kind == "symarr":
+            if name == "extend" and len(args) == 1:
+                items = self.concrete_items(st, args[0])
+                if items is None:
+                    raise Unsupported(f"{self.loc(node)} extend of a symbolic buffer by a value of symbolic length")
+                self._grow(st, obj.ref, items)
+                return [(st, NONE)]
+            if name == "append" and len(args) == 1 and isinstance(args[0], VInt):
+                self._grow(st, obj.ref, [args[0]])
+                return [(st, NONE)]
+            raise Unsupported(f"{self.loc(node)} method {name} on a symbolic byte buffer")
+        return super().call_method(st, obj, name, args, kwargs, node)
+
     def binop(self, st, op, a, b, node, inplace=False):
+        if op == "Add" and inplace and isinstance(a, VRef) and st.heap.get(a.ref) is not None and st.obj(a.ref).kind == "symarr":
+            items = self.concrete_items(st, b)
+            if items is None:
+                raise Unsupported(f"{self.loc(node)} += of a symbolic buffer by a value of symbolic length")
+            self._grow(st, a.ref, items)
+            return [(st, None)]
         if op == "Add" and (self._is_symb(a) or self._is_symb(b)) and self._bytes_like(a) and self._bytes_like(b):
             na, aa = arr_of(a)
             nb, ab = arr_of(b)
@@ -274,6 +312,44 @@ class C20Executor(Executor):
             eq = seq_eq(na, aa, nb, ab)
             return [(st, VBool(eq if op == "Eq" else z3.Not(eq)))]
         return super().compare(st, op, a, b, node)
+
+    # ---- the round-key cache read with `in` / `[]` instead of `.get` (same ASSUMED class invariant as the `.get` model: a
+    #      cached value is the key expansion of its key and only valid key lengths are cached; established by the
+    #      cache-invariant obligation at every store)
+    def _cache_hit(self, st, key):
+        try:
+            n, a = arr_of(key)
+        except Unsupported:
+            return VExt("RoundKeys")
+        st.assume(z3.Or(n == 16, n == 24, n == 32))
+        return VExt("RoundKeys", KEXP(n, a))
+
+    def contains(self, st, container, item, node):
+        if isinstance(container, VExt) and container.sort == "RKCache":
+            h = z3.Bool(fresh_name("cached"))
+            try:
+                n, a = arr_of(item)
+                st.ghost["rk-membership"] = st.ghost.get("rk-membership", ()) + ((n, a, h),)
+            except Unsupported:
+                pass
+            return [(st, VBool(h))]
+        return super().contains(st, container, item, node)
+
+    def get_index(self, st, base, idx, node):
+        if isinstance(base, VExt) and base.sort == "RKCache":
+            known = False
+            try:
+                n, a = arr_of(idx)
+                for (n0, a0, h) in st.ghost.get("rk-membership", ()):
+                    if n0.eq(n) and a0.eq(a) and not self.feasible(st.pc, z3.Not(h)):
+                        known = True
+            except Unsupported:
+                pass
+            if not known:
+                miss = st.fork()
+                self.raise_in(miss, self.mk_exc("KeyError"))
+            return [(st, self._cache_hit(st, idx))]
+        return self._get_index_sym(st, base, idx, node)
 
     def truth(self, st, v):
         if isinstance(v, VExt) and v.sort == "RoundKeys":
@@ -362,7 +438,14 @@ def run_install_site(repo):
         fnode = m.functions.get("patch_pypdf_fallback_aes")
         if fnode is None:
             raise Unsupported("patch_pypdf_fallback_aes not found")
-        ex = InstallExecutor(m, Registry(), Universe(key))
+        reg = Registry()
+
+        def m_import_module(ex_, st_, args, kwargs, node):
+            if args and isinstance(args[0], VStr) and args[0].const() is not None and args[0].const().split(".")[0] == "pypdf" and len(args) == 1:
+                return [(st_, ex_.module_obj(st_, args[0].const()))]
+            raise Unsupported(f"{ex_.loc(node)} import_module of a computed / foreign name")
+        reg.ext_models["importlib.import_module"] = m_import_module
+        ex = InstallExecutor(m, reg, Universe(key))
         st = State()
         st.frames = [Frame({}, None, fnode)]
         ex.cur_fn_stack.append(fnode)
